@@ -8,6 +8,9 @@ Open Scope N_scope.
 (** case analysis over all 256 byte values *)
 Ltac all_bytes c := destruct c as [[] [] [] [] [] [] [] []].
 
+Lemma rev_fast_eq {A} (l : list A) : rev_fast l = rev l.
+Proof. unfold rev_fast. symmetry. apply rev_alt. Qed.
+
 (** * one source byte through writer and reader *)
 Lemma dec_step c f rest :
   dec_body (S f) (esc_byte c ++ rest) = option_map (cons c) (dec_body f rest).
